@@ -399,8 +399,12 @@ func (r *Run) FinishNoExit() int {
 		fmt.Printf("ENGINE-ERROR property=%s vacuous run: evaluations=%d distinct_nontrivial=%d\n", r.ID, r.evaluations, len(r.distinct))
 		return 2
 	}
-	fmt.Printf("OK property=%s tier=%s evaluations=%d distinct=%d states=%v exhaustive=%v known=%d new=%d wall=%.1fs\n",
-		r.ID, Tier(), r.evaluations, len(r.distinct), cov["states"], r.exhaustive, len(knownHit), len(newViol), time.Since(r.start).Seconds())
+	verdict := "OK"
+	if exit != 0 {
+		verdict = "FAILED"
+	}
+	fmt.Printf("%s property=%s tier=%s evaluations=%d distinct=%d states=%v exhaustive=%v known=%d new=%d wall=%.1fs\n",
+		verdict, r.ID, Tier(), r.evaluations, len(r.distinct), cov["states"], r.exhaustive, len(knownHit), len(newViol), time.Since(r.start).Seconds())
 	return exit
 }
 
